@@ -51,6 +51,7 @@ type Step struct {
 	Wrap     string     `json:"wrap"`
 	Fals     Fals       `json:"fals"`
 	Fault    int        `json:"fault"`
+	NLen     int        `json:"nlen"`
 	Items    []string   `json:"items"`
 	NPriRand int        `json:"nprirand"`
 	Truth    []bool     `json:"truth"`
@@ -70,7 +71,14 @@ type Config struct {
 	TraceMax int
 }
 
-const protoName = "verif/sigma"
+// protoNameOf: the prover's protocol name of the requested length (deterministic, no repeated period of 64)
+func protoNameOf(n int) string {
+	b := make([]byte, n)
+	for i := range b {
+		b[i] = "verif/sigma:"[i%12] + byte(i/12)%7
+	}
+	return string(b)
+}
 
 // rep with explicit point name (the verifier's predicate may change the terms but keeps the point variable)
 type rep struct {
@@ -128,6 +136,7 @@ func build(tree [][]rep, wrap string) (top proof.Predicate, or proof.Predicate) 
 
 type statement struct {
 	s       *suites.S
+	name    string
 	ns, nb  int
 	x       map[string]kyber.Scalar // true secrets
 	px      map[string]kyber.Scalar // prover's secrets (possibly falsified)
@@ -154,7 +163,7 @@ func maxIdx(tree [][][]Term) (ns, nb int) {
 func newStatement(s *suites.S, st Step) *statement {
 	ns, nb := maxIdx(st.Tree)
 	nb++ // one spare base for predicate variations
-	m := &statement{s: s, ns: ns, nb: nb, x: map[string]kyber.Scalar{}, px: map[string]kyber.Scalar{}, pts: map[string]kyber.Point{}, tree: namedTree(st.Tree)}
+	m := &statement{s: s, name: protoNameOf(st.NLen), ns: ns, nb: nb, x: map[string]kyber.Scalar{}, px: map[string]kyber.Scalar{}, pts: map[string]kyber.Point{}, tree: namedTree(st.Tree)}
 	for v := 1; v <= ns; v++ {
 		x := s.NonZeroScalar()
 		m.x[fmt.Sprintf("x%d", v)] = x
@@ -206,11 +215,27 @@ func cpTree(t [][]rep) [][]rep {
 
 // verifierSide applies a verifier-input mutation; returns tree, points, name and whether it was applicable
 func (m *statement) verifierSide(mu Mut) ([][]rep, map[string]kyber.Point, string, bool) {
-	tree, pts, name := cpTree(m.tree), cpPts(m.pts), protoName
+	tree, pts, name := cpTree(m.tree), cpPts(m.pts), m.name
 	ok := true
 	switch mu.K {
 	case "name":
-		name = protoName + "/other"
+		b := []byte(m.name)
+		switch mu.A {
+		case 1: // differs only in the last byte
+			b[len(b)-1] ^= 1
+		case 2: // differs only in byte 65
+			b[64] ^= 1
+		case 3: // proper prefix
+			if len(b) > 64 {
+				b = b[:64]
+			} else {
+				b = b[:len(b)-1]
+			}
+		default: // extension
+			b = append(b, 'x')
+		}
+		name = string(b)
+		ok = name != m.name
 	case "base":
 		n := fmt.Sprintf("B%d", mu.A)
 		pts[n], ok = m.s.AlterPoint(pts[n])
@@ -482,7 +507,7 @@ func (r *replayer) run() error {
 		inner := prover
 		prover = func(ctx proof.ProverContext) error { return inner(&recProver{ctx, rec}) }
 	}
-	prf, err := proof.HashProve(s, protoName, prover)
+	prf, err := proof.HashProve(s, m.name, prover)
 	if traced {
 		r.tr.emit(id+"/P", pv, "prover", rec, err == nil)
 	}
@@ -535,7 +560,7 @@ func (r *replayer) run() error {
 		}
 		found := false
 		for t := 0; t < tries && !found; t++ {
-			q, e := proof.HashProve(s, protoName, pred.Prover(s, m.px, m.pts, choice))
+			q, e := proof.HashProve(s, m.name, pred.Prover(s, m.px, m.pts, choice))
 			if e == nil && len(q) == lay.total() && q[len(q)-1] == 0 {
 				z := 0
 				for z < lay.size(len(lay.kinds)-1)-1 && q[len(q)-1-z] == 0 {
@@ -648,7 +673,7 @@ func (r *replayer) forge(m *statement, pv Step, kind string) ([]byte, error) {
 	}
 	if kind == "simAll" {
 		_, p := run(nil)
-		return proof.HashProve(s, protoName, p)
+		return proof.HashProve(s, m.name, p)
 	}
 	// replayCh: learn the challenge of a first transcript, then aim a second (different) transcript at it
 	var c0 kyber.Scalar
@@ -663,11 +688,11 @@ func (r *replayer) forge(m *statement, pv Step, kind string) ([]byte, error) {
 		c0 = s.Scalar()
 		return ctx.PubRand(c0)
 	}
-	if _, err := proof.HashProve(s, protoName, first); err != nil {
+	if _, err := proof.HashProve(s, m.name, first); err != nil {
 		return nil, err
 	}
 	_, p := run(c0)
-	return proof.HashProve(s, protoName, p)
+	return proof.HashProve(s, m.name, p)
 }
 
 // ---------------------------------------------------------------- deniable (clique) protocol
